@@ -10,6 +10,8 @@ and compared through the CRC-32 of the bytes the application read):
                                                    (classified by the harness: the tail matches the payload
                                                    further on = lost, further back = dup), or more bytes were
                                                    read than were ever written, or the CRC differs
+                               (also: a duplicated/replayed first packet surfaced as a NEW stream that delivered data;
+                               a ghost stream that fails without delivering a byte is tolerated and counted)
   dcstream:eof-incomplete      clean EOF although fewer bytes were read than the peer wrote before its FIN
   dcstream:hang                some side had no result before the (virtual) deadline
   dcstream:error-late          vanished peer / unknown path secret: the failure arrived later than
@@ -21,6 +23,7 @@ and compared through the CRC-32 of the bytes the application read):
   dcstream:bad-op              the harness refused the line (e.g. the scaffolding's idle timeout is not the
                                one the oracle bounds with)
 """
+import re
 import zlib
 
 STATELESS = True
@@ -167,6 +170,7 @@ def _panic_sig(text):
     text = text.strip()
     msg, _, loc = text.partition("@")
     f = loc.rsplit(":", 1)[0] if loc else "?"
+    msg = re.sub(r"\d+", "N", msg)   # `position_32002_exceeded_capacity_of_32000` -> `position_N_exceeded_capacity_of_N`
     return f"dcstream:panic:{msg[:60]}@{f}"
 
 
@@ -222,6 +226,10 @@ def oracle(ops, outs):
         _dir_checks(i, "s2c", o["s2c"], key_s2c(seed), resp, bad)
         if o.get("panic", "-") != "-":
             bad.append((i, _panic_sig("background@" + o["panic"]), f"a background task panicked at {o['panic']}"))
+        ghost = [int(x) for x in o.get("ghost", "0:0:0").split(":")]
+        if ghost[1] > 0:
+            bad.append((i, "dcstream:dup-bytes", f"the server application was handed {ghost[0]} stream(s) nobody opened and read "
+                        f"{ghost[1]} bytes on them (a replayed first packet surfaced as a new stream with data)"))
         if o["end"] != "done":
             bad.append((i, "dcstream:hang", f"no result before the deadline of {p['deadline_ms']} ms (cerr={o['cerr']} serr={o['serr']})"))
             continue
@@ -238,7 +246,8 @@ def oracle(ops, outs):
             if s2c["eof"] == "clean" and int(s2c["r"]) < resp:
                 bad.append((i, "dcstream:wrong-data-instead-of-error",
                             f"client saw a clean EOF after {s2c['r']} of {resp} response bytes although the peer had {sop}"))
-            if sop == "forget_secret" and s2c["eof"] != "err" and o["cerr"] == "-":
+            # (a client that drops the stream right after writing never looks at the outcome)
+            if sop == "forget_secret" and cop != "drop_early" and s2c["eof"] != "err" and o["cerr"] == "-":
                 bad.append((i, "dcstream:wrong-data-instead-of-error", "unknown path secret: the client saw no error at all"))
         elif cop in ("normal", "shutdown_early", "concurrent") and sop in ("normal", "write_first"):
             c2s, s2c = o["c2s"], o["s2c"]
